@@ -14,6 +14,8 @@ driver_of() {
     C06|C07|C11) echo nav ;;
     C01|C09|C12|C16) echo api ;;
     C02) echo verify ;;
+    C08) echo stream ;;
+    C03|C10) echo decode ;;
     *) echo "" ;;
   esac
 }
@@ -27,7 +29,7 @@ build() {
   local CF="-O1 -g -DBINSON_PARSER_WITH_PRINT -I$REPO/include"
   local SANFLAGS="$SANFLAGS"
   case $drv in
-    verify) CF="-O2 -g -DBINSON_PARSER_WITH_PRINT -I$REPO/include"; SANFLAGS="" ;;   # pure verdict comparison, 10^8 evaluations: no sanitizer
+    verify|stream) CF="-O2 -g -DBINSON_PARSER_WITH_PRINT -I$REPO/include"; SANFLAGS="" ;;   # pure verdict comparison, 10^8 evaluations: no sanitizer
   esac
   gcc -std=c99 $CF $SANFLAGS -c $REPO/src/binson_parser.c -o $B/binson_parser.o || return 2
   gcc -std=c99 $CF $SANFLAGS -c $REPO/src/binson_writer.c -o $B/binson_writer.o || return 2
